@@ -258,6 +258,53 @@ def _cmp_phase(R, got, ref, shifted, tol, sig):
 
 
 # ---------------------------------------------------------------------------------------------
+# size thresholds: fast paths, blocking, next_fast_len, dtype promotion kick in at sizes far above the exhaustive
+# lattice.  A finite alphabet of sizes around powers of two / typical block sizes, three inputs each (delta at the
+# origin, delta at the last sample, seeded dense), every engine, against the separable textbook sum.
+
+def _probe_inputs(shape, seed):
+    o = np.zeros(shape)
+    o[shape[0] // 2, shape[1] // 2] = 1
+    c = np.zeros(shape)
+    c[-1, -1] = 1
+    return [('origin', o), ('corner', c), ('dense', dense(shape, seed, 41))]
+
+
+def run_large(case, seed, R):
+    si, so, Q, shift = tuple(case['in']), tuple(case['out']), case['Q'], tuple(case['shift'])
+    eps = np.finfo(float).eps
+    big = max(si + so)
+    tol = 200 * eps * big ** 1.5
+    for prec in (64, 32) if big <= 300 else (64,):
+        for method in ('mdft', 'czt'):
+            for fwd in (True, False):
+                reset_executors(prec)
+                try:
+                    name = {('mdft', True): 'dft2', ('mdft', False): 'idft2', ('czt', True): 'czt2', ('czt', False): 'iczt2'}[(method, fwd)]
+                    sig = f"{name}:large:{shape_class(si, so)}:{shift_class(shift)}"
+                    e = eps if prec == 64 else np.finfo(np.float32).eps
+                    for label, x in _probe_inputs(si, seed):
+                        ref = ref_dft.dft2(x, Q, so, shift, fwd)
+                        got = R.call(engine(method, fwd), x.copy(), Q, so, shift, sig=sig + ':exception')
+                        _cmp_phase(R, got, ref, is_shifted(shift), 200 * e * big ** 1.5 * max(1.0, float(np.abs(ref).max())), sig)   # chirp phases grow like n, accumulation like sqrt(n); measured honest error <= 14 eps n^1.5
+                finally:
+                    config.precision = 64
+    # padded-FFT route on its own grid
+    if case.get('fft'):
+        Qf = case['fft']
+        sp = tuple(math.ceil(s * Qf) for s in si)
+        Qeff = (sp[0] / si[0], sp[1] / si[1])
+        for fwd, fn, wname in ((True, propagation.focus, 'focus'), (False, propagation.unfocus, 'unfocus')):
+            for label, x in _probe_inputs(si, seed):
+                xc = x.astype(complex)
+                ref = ref_dft.dft2(xc, Qeff, sp, (0, 0), fwd)
+                got = R.call(fn, xc.copy(), Qf)
+                R.expect_close(got, ref, tol * max(1.0, float(np.abs(ref).max())), f'{wname}:large:{shape_class(si, sp)}', f'{wname} {si} Q={Qf} input {label}')
+    R.nontrivial()
+    R.outcome('large')
+
+
+# ---------------------------------------------------------------------------------------------
 # history exploration of the shared executors
 
 def _hist_inputs(seed):
@@ -390,6 +437,15 @@ def plan(tier, seed):
                 for q in (1.0, 2.0, 1.37)
                 for sh in ([0, 0], [1, 0], [0, -1.5]) for (wvl, efl, dxi) in ((0.5, 100.0, 0.1), (1.0, 37.5, 0.25))
                 if tier != 'quick' or (n0 + n1 + N0 + N1 + int(q * 100) + int(sh[0]) + int(wvl * 2)) % 3 == 0 or max(n0, n1, N0, N1) <= 2]
+    LN = [63, 64, 65, 127, 128, 129, 130, 255, 256, 257, 300] + ([511, 512, 513, 641, 1000, 1024, 1025] if tier != 'quick' else [513, 641])
+    large_cases = []
+    for n in LN:                                   # 1-D-like: one long axis, the other 3 or 1
+        for (si, so) in (([3, n], [2, n]), ([n, 1], [n, 2]), ([4, n], [n, 3]), ([n, 3], [5, n])):
+            for Q, sh in ((1, [0, 0]), (2.0, [1.5, -2]), ([1, 2], [0, 0])):
+                large_cases.append({'in': si, 'out': so, 'Q': Q, 'shift': sh})
+    for (a, b) in ([64, 64], [65, 65], [65, 67], [101, 64], [128, 128], [130, 128], [126, 140], [66, 256], [129, 127]):   # 2-D at / above 64^2 .. 128^2
+        large_cases.append({'in': [a, b], 'out': [a, b], 'Q': 1, 'shift': [0, 0], 'fft': 1})
+        large_cases.append({'in': [a, b], 'out': [b, a], 'Q': 1.0, 'shift': [0.5, 0], 'fft': 2 if a * b <= 5000 or tier != 'quick' else 1})
     depth = 4 if tier == 'quick' else 5
     return [
         ScopeUnit('engines', eng_cases, run_engines,
@@ -400,6 +456,10 @@ def plan(tier, seed):
                   f'every input shape in [1..{Bf}]^2 x Q in {{1,1.5,2,2.5,3}}: focus / unfocus operator matrices vs the textbook sum on the padded grid (per-axis Q = padded/unpadded), vs mdft and czt on that grid, Wavefront.focus/unfocus, both precisions'),
         ScopeUnit('wrappers', wr_cases, run_wrappers,
                   f'pupils (n0,n1) in [1..{Bw}]^2 (square and non-square) -> focal (N0,N1) in [1..{Bw + 1}]^2, 3 sampling ratios, 3 shifts, 2 (wavelength, efl, dx) unit sets' + (' (quick: every third cell of the product by index arithmetic, all cells with axes <= 2)' if tier == 'quick' else '') + ': focus_fixed_sampling / unfocus_fixed_sampling and the Wavefront methods vs the textbook sum whose per-axis Q = wvl*efl/(n_axis*dx_in*dx_out) and shift/dx_out are computed by hand (one physical dx per plane)'),
+        ScopeUnit('large', large_cases, run_large,
+                  f'size-threshold alphabet: long axes n in {LN} (1-D-like shapes (3,n),(n,1),(4,n)->(n,3),(n,3)->(5,n)) x 3 (Q, shift) forms, and 2-D shapes at / above 64^2..128^2 incl. odd, non-square and sides = 2 mod 4; '
+                  'every engine and direction (and focus / unfocus on their own grid) on three inputs (delta at the origin, delta at the last sample, seeded dense) against the separable textbook sum; not closed over the data dimension (stated)',
+                  chunk=2),
         HistoryUnit('executor_history', [{'prec': 64}], h_fresh, h_events, h_apply, h_check, h_canon, depth,
                     f'BFS to depth {depth} over events {EVENTS} on the shared module-level mdft / czt executors and config.precision; the call events are built to collide in the cache keys (Q=2 vs 2.0 vs tuple, samples int vs tuple, shift 0 vs (0,0), same geometry other direction, same key other precision, same key other input dtype); canonical state = (precision, cache keys with cached dtypes); invariant in every state: the call equals, bit for bit and in dtype, the same call on a fresh executor under the current precision, and equals the textbook sum'),
     ]
